@@ -104,6 +104,7 @@ deriving DecidableEq, Repr, Inhabited
 inductive Ev where
   | res (w : Who) (op : Op) (r : Res)   -- a call returned (printed by the driver)
   | started                             -- `simcam_start` reset the counters: a new run begins
+  | utrig                               -- `camera_execute_trigger` stored `triggered = 1`
   | generated (g : Nat)                 -- the streamer finished rendering its `g`-th frame of the run
   | published (id g : Nat)              -- the streamer stored `im.frame_id = id` (shifted) with `g` frames generated
   | delivered (id g : Nat)              -- `simcam_get_frame` handed out `id` (shifted) with `g` frames generated
@@ -134,6 +135,7 @@ structure State where
   issued : Nat := 0            -- user triggers that stored `triggered = 1` in this run
   gen : Nat := 0               -- frames generated in this run
   ndeliv : Nat := 0            -- frames delivered in this run
+  nruns : Nat := 0             -- starts so far
 deriving Repr, Inhabited
 
 def State.pc (s : State) : Who → CPc
@@ -196,39 +198,41 @@ def wakeF (s : State) : State := { s with pa := wakeC s.pa, pb := wakeC s.pb }
 /-- the loop of `simcam_get_frame` (lines 519–533), entered holding the lock -/
 def getLoop (s : State) (w : Who) : State :=
   if s.running ∧ s.last ≥ s.fid then s.setPc w .getWait
+  else if !s.running then
+    -- line 523 runs before the test of `is_running`: `last` moves although nothing is handed out
+    ({ s with last := s.fid, owner := none }).ret w .get .noframe
   else
-    let s1 := { s with last := s.fid, owner := none }
-    if !s.running then s1.ret w .get .noframe
-    else ({ s1 with log := .delivered s.fid s.gen :: s1.log, ndeliv := s1.ndeliv + 1 }).ret w .get (.frame (s.fid - 1))
+    ({ s with last := s.fid, owner := none, log := .delivered s.fid s.gen :: s.log,
+              ndeliv := s.ndeliv + 1 }).ret w .get (.frame (s.fid - 1))
 
 /-- `simcam_stop` up to its first yield point (entered with HAL state Running) -/
 def stopBegin (s : State) (w : Who) (g : Bool) : State :=
   ({ s with running := false }).setPc w (.trigLock (.stop g))
 
-/-- first interval of a call: from the boundary between calls to the first yield point of the call -/
-def beginOp (s : State) (w : Who) (op : Op) : State :=
+/-- first interval of a call: from the boundary between calls to the first yield point of the call.
+`s0` is `s` with the call removed from the script (all tests read fields the script does not touch). -/
+def beginOp (s : State) (w : Who) (op : Op) (rest : List Op) : State :=
+  let s0 := s.setScript w rest
   match op with
-  | .on => s.setPc w (.setLock true)
+  | .on => s0.setPc w (.setLock true)
   | .off =>
-    let s := { s with gated := false }
-    if s.enable then s.setPc w (.trigLock .setoff) else s.setPc w (.setLock false)
+    if s.enable then ({ s0 with gated := false }).setPc w (.trigLock .setoff)
+    else ({ s0 with gated := false }).setPc w (.setLock false)
   | .start =>
-    if s.hal = .R ∨ !(s.pc w.other).quiet then s.ret w .start .illformed
-    else
-      ({ s with running := true, last := 0, fid := 0, triggered := false, wanted := false,
-                log := .started :: s.log, gated := s.enable, issued := 0, gen := 0, ndeliv := 0 }).setPc w .startCreate
-  | .stop => if s.hal = .R then stopBegin s w false else s.ret w .stop .ok
-  | .trig => if s.hal = .R then s.setPc w (.trigLock .user) else s.ret w .trig .ok
+    -- ill-formed use: the camera is running, or the other caller is inside a call
+    if s.hal = .R then s0.ret w .start .illformed
+    else match (s.pc w.other).quiet with
+      | true =>
+        ({ s0 with running := true, last := 0, fid := 0, triggered := false, wanted := false,
+                   log := .started :: s.log, gated := s.enable, issued := 0, gen := 0, ndeliv := 0,
+                   nruns := s.nruns + 1 }).setPc w .startCreate
+      | false => s0.ret w .start .illformed
+  | .stop => if s.hal = .R then stopBegin s0 w false else s0.ret w .stop .ok
+  | .trig => if s.hal = .R then s0.setPc w (.trigLock .user) else s0.ret w .trig .ok
   | .get =>
-    if s.hal ≠ .R then s.ret w .get .err
-    else if !s.running then stopBegin s w true
-    else s.setPc w .getLock
-
-/-- what follows `lock_release` at the end of `simcam_execute_trigger` -/
-def afterTrigger (s : State) (w : Who) : TCtx → State
-  | .user => s.ret w .trig .ok
-  | .stop g => s.setPc w (.stopNotifyF g)
-  | .setoff => s.setPc w (.setLock false)
+    if s.hal ≠ .R then s0.ret w .get .err
+    else if !s.running then stopBegin s0 w true
+    else s0.setPc w .getLock
 
 /-- one step of caller `w` -/
 def cstep (s : State) (w : Who) : Option State :=
@@ -242,16 +246,22 @@ def cstep (s : State) (w : Who) : Option State :=
     match s.script w with
     | [] => none            -- not reachable: a caller with an empty script is not parked at `idle`
     | op :: rest =>
-      some (beginOp (s.setScript w rest) w op)
+      some (beginOp s w op rest)
   | .startCreate =>
     some (({ s with ps := .start, live := true, hal := .R }).ret w .start .ok)
   | .trigLock k =>
     if s.owner ≠ none then none
-    else
-      let s1 := { s with owner := some w.tid, wanted := true, triggered := true }
-      let s2 := match k with | .user => { s1 with issued := s1.issued + 1 } | _ => s1
-      some (s2.setPc w (.trigNotify k))
-  | .trigNotify k => some (afterTrigger ({ wakeT s with owner := none }) w k)
+    else match k with
+      | .user =>
+        some (({ s with owner := some w.tid, wanted := true, triggered := true, issued := s.issued + 1,
+                        log := .utrig :: s.log }).setPc w (.trigNotify .user))
+      | .stop g => some (({ s with owner := some w.tid, wanted := true, triggered := true }).setPc w (.trigNotify (.stop g)))
+      | .setoff => some (({ s with owner := some w.tid, wanted := true, triggered := true }).setPc w (.trigNotify .setoff))
+  | .trigNotify k =>
+    match k with
+    | .user => some (({ wakeT s with owner := none }).ret w .trig .ok)
+    | .stop g => some (({ wakeT s with owner := none }).setPc w (.stopNotifyF g))
+    | .setoff => some (({ wakeT s with owner := none }).setPc w (.setLock false))
   | .stopNotifyF g => some ((wakeF s).setPc w (.stopJoin g))
   | .stopJoin g =>
     if s.live ∧ s.ps ≠ .fin then none
@@ -274,12 +284,16 @@ def loopTop (s : State) : State := if s.running then { s with ps := .lock1 } els
 /-- lines 241–295, entered holding the lock -/
 def afterLock1 (s : State) : State :=
   if s.enable ∧ !s.triggered then { s with ps := .waitT }
+  else if s.running then
+    { s with triggered := false, owner := none, sfid := s.sfid + 1, gen := s.gen + 1,
+             log := .generated (s.gen + 1) :: s.log, ps := .sleep }
+  -- not running: no sleep, straight on to line 297
+  else if s.wanted then
+    { s with triggered := false, owner := none, sfid := s.sfid + 1, gen := s.gen + 1,
+             log := .generated (s.gen + 1) :: s.log, ps := .lock2 }
   else
-    let s1 := { s with triggered := false, owner := none, sfid := s.sfid + 1, gen := s.gen + 1,
-                       log := .generated (s.gen + 1) :: s.log }
-    if s1.running then { s1 with ps := .sleep } else
-    -- no sleep: straight on to line 297
-    if s1.wanted then { s1 with ps := .lock2 } else loopTop s1
+    { s with triggered := false, owner := none, sfid := s.sfid + 1, gen := s.gen + 1,
+             log := .generated (s.gen + 1) :: s.log, ps := .fin }
 
 /-- one step of the streamer -/
 def sstep (s : State) : Option State :=
